@@ -1,7 +1,6 @@
 package main
 
 import (
-	"os"
 	"fmt"
 	"go/ast"
 	"go/constant"
@@ -318,9 +317,11 @@ func (e *SpecEnv) eval(x ast.Expr) (SV, error) {
 		case *types.Map:
 			_, _, vals, dom := w.mapHeaps(e.state(), u)
 			val := T(fmt.Sprintf("(select (select %s %s) %s)", vals.S, xv.T.S, iv.T.S), w.sortOf(u.Elem()))
-			w.assume(fmt.Sprintf("(=> (not (select (select %s %s) %s)) (= %s %s))", dom.S, xv.T.S, iv.T.S, val.S, w.zero(u.Elem()).S))
-			for _, f := range w.typeFacts(val, u.Elem()) {
-				w.assume(f)
+			if !w.heapBound() {
+				w.assume(fmt.Sprintf("(=> (not (select (select %s %s) %s)) (= %s %s))", dom.S, xv.T.S, iv.T.S, val.S, w.zero(u.Elem()).S))
+				for _, f := range w.typeFacts(val, u.Elem()) {
+					w.assume(f)
+				}
 			}
 			return SV{val, u.Elem()}, nil
 		}
@@ -533,11 +534,14 @@ func (e *SpecEnv) selector(n *ast.SelectorExpr) (SV, error) {
 		return SV{cur, types.NewPointer(typ)}, nil
 	}
 	_ = fld
+	if w.heapBound() {
+		return SV{cur, typ}, nil // inside an axiom closed over heaps: no typing or allocation facts (see World.heapBound)
+	}
 	for _, f := range w.typeFacts(cur, typ) {
 		w.assume(f)
 	}
 	// a slice read from a field is nil or has an allocated backing array (as loadAddr states for slices loaded directly)
-	if isSlice(typ) && os.Getenv("NO_SLICE_ALLOC") == "" {
+	if isSlice(typ) {
 		if al, ok := e.state().heap["alloc"]; ok {
 			w.assume(fmt.Sprintf("(or (= (sbase %s) 0) (select %s (sbase %s)))", cur.S, al.S, cur.S))
 		}
